@@ -161,6 +161,13 @@ def target_of(an, prog, e):
         t = generic_target(prog, n[2])
         if t:
             return t
+    # the conversion written in line (`match map.get(&K) { Some(v) => v.try_into().ok(), None => None }`)
+    for n in find(e, lambda n: n[0] == "call" and n[2] is not None and n[2].nsyn in ("std::convert::TryInto::try_into", "std::convert::TryFrom::try_from")):
+        sa = n[2].syn_args or []
+        if n[2].nsyn.endswith("try_into") and len(sa) > 1:
+            return sa[1]
+        if n[2].nsyn.endswith("try_from") and sa:
+            return sa[0]
     for c in find(e, lambda n: n[0] == "closure"):
         b = prog.body(c[1])
         if b is None:
@@ -175,44 +182,47 @@ def target_of(an, prog, e):
 
 
 def accepted_kinds(an, prog, T):
-    """(set of FieldValue variants accepted, set of DataNumber variants accepted) by <T as TryFrom<&FieldValue>>."""
+    """(set of FieldValue variants accepted, set of DataNumber variants accepted) by <T as TryFrom<&FieldValue>> /
+    <T as TryFrom<&DataNumber>>. Decided per variant, whatever the shape of the conversion: the discriminant of the
+    argument is set to the variant, private helpers are inlined at CFG level, and the conversion accepts the variant
+    iff a block that builds `Ok(..)` (or delegates to another conversion) can then execute."""
+    CONV = ("std::convert::TryFrom::try_from", "std::convert::TryInto::try_into", "std::convert::From::from", "std::convert::Into::into")
+
+    def accepted(body, adt_path):
+        body = classifier_inlined(prog, body.path) or body
+        adt = prog.adts[adt_path]
+        scr = []
+        for l in range(1, len(body.locals)):
+            try:
+                x = peel(an.local(body, l), widen=True)
+            except RecursionError:
+                continue
+            if x[0] == "discr" and peel(x[1]) == ("arg", 1):
+                scr.append(l)
+        out = set()
+        if not scr:
+            return None
+        for v in adt["variants"]:
+            dv = v.get("discr")
+            val = int(dv) if dv is not None and str(dv).lstrip("-").isdigit() else v["vi"]
+            live = body.reachable_cp(0, assume={l: val for l in scr})
+            oks = [1 for (bb, i, s) in block_aggs(body, live) if s["rv"]["variant"] == "Ok" and s["rv"]["adt"].endswith("result::Result")]
+            dele = [1 for (cb, tt, cc) in body.calls() if cb in live and cc is not None and cc.nsyn in CONV
+                    and not (cc.nsyn.endswith("From::from") and "Error" in (cc.id or ""))]
+            if oks or dele:
+                out.add(v["name"])
+        return out
+
     b = prog.impl_fn(T, "TryFrom<&variable_versions::data_number::FieldValue>", "try_from")
     if b is None:
         return None, None
-    fv = set()
-    for blk in sorted(b.live_blocks()):
-        t = b.term(blk)
-        if t["k"] == "switch" and peel(an.op(b, t["op"]))[0] == "discr":
-            adt = prog.adts["variable_versions::data_number::FieldValue"]
-            for v, tb in t["targets"]:
-                if tb == t["otherwise"]:
-                    continue
-                name = [x["name"] for x in adt["variants"] if x["vi"] == v]
-                # does this arm reach an Ok aggregate?
-                r = b.reachable(tb)
-                oks = [1 for (bb, i, s) in block_aggs(b, r) if s["rv"]["variant"] == "Ok" and b.edge_dominates((blk, tb), bb)]
-                # delegation to another conversion (`<T>::try_from(d).map_err(..)`, `d.try_into()..`)
-                dele = [1 for (cb, tt, cc) in b.calls() if cb in r and b.edge_dominates((blk, tb), cb) and cc is not None
-                        and cc.nsyn in ("std::convert::TryFrom::try_from", "std::convert::TryInto::try_into", "std::convert::From::from", "std::convert::Into::into")]
-                if (oks or dele) and name:
-                    fv.add(name[0])
-            break
+    fv = accepted(b, "variable_versions::data_number::FieldValue")
+    if fv is None:
+        return None, None
     dn = set()
     b2 = prog.impl_fn(T, "TryFrom<&variable_versions::data_number::DataNumber>", "try_from")
     if b2 is not None:
-        adt = prog.adts["variable_versions::data_number::DataNumber"]
-        for blk in sorted(b2.live_blocks()):
-            t = b2.term(blk)
-            if t["k"] == "switch" and peel(an.op(b2, t["op"]))[0] == "discr":
-                for v, tb in t["targets"]:
-                    if tb == t["otherwise"]:
-                        continue
-                    name = [x["name"] for x in adt["variants"] if x["vi"] == v]
-                    r = b2.reachable(tb)
-                    oks = [1 for (bb, i, s) in block_aggs(b2, r) if s["rv"]["variant"] == "Ok" and b2.edge_dominates((blk, tb), bb)]
-                    if oks and name:
-                        dn.add(name[0])
-                break
+        dn = accepted(b2, "variable_versions::data_number::DataNumber") or set()
     return fv, dn
 
 
@@ -301,6 +311,49 @@ def later_field_writes(an, b, agg_stmt_site, name):
     return out
 
 
+def struct_fields(an, prog, e, adt_suffix, depth=0):
+    """Field name -> value expression of a struct value built by a literal, by `Default::default()`, or by a chain of
+    private builder methods (`fn with_x(mut self, ..) -> Self { self.f = ..; self }`) on top of one of those."""
+    e = peel(e)
+    if depth > 8:
+        return None
+    if e[0] == "agg" and e[1].endswith(adt_suffix):
+        return dict(zip(e[4], e[3]))
+    if e[0] != "call" or e[2] is None or not e[2].local:
+        return None
+    c = e[2]
+    hb = prog.bodies.get(c.path)
+    if hb is None:
+        return None
+    if c.nsyn == "std::default::Default::default":
+        out = {}
+        for (blk, i, st) in block_aggs(hb):
+            if st["rv"]["adt"].endswith(adt_suffix):
+                for nm, o in zip(st["rv"]["fields"], st["rv"]["ops"]):
+                    out[nm] = default_field(prog, an, ("field", e, nm, st["rv"]["adt"]))
+                return out
+        return None
+    if not hb.local_ty(0).endswith(adt_suffix) or not e[3] or hb.arg_count < 1 or not hb.local_ty(1).endswith(adt_suffix):
+        return None
+    # builder: returns its first argument with some fields overwritten
+    r = peel(an.local(hb, 0), mutlocal=False)
+    base = r[2] if r[0] == "mutlocal" else r
+    if peel(base) != ("arg", 1):
+        return None
+    fields = struct_fields(an, prog, e[3][0], adt_suffix, depth + 1)
+    if fields is None:
+        return None
+    fields = dict(fields)
+    mapping = {i + 1: a for i, a in enumerate(e[3])}
+    for blk, i, st in hb.stmts():
+        if st["k"] == "assign" and st["place"]["l"] == 1:
+            pr = st["place"].get("p") or []
+            if len(pr) == 1 and pr[0]["k"] == "field" and pr[0].get("name"):
+                v = an.expand(an.slicer(hb).rvalue(st["rv"], blk))
+                fields[pr[0]["name"]] = an.simp(an.interp.subst(v, mapping))
+    return fields
+
+
 def top_fields(an, prog, fnb, rb):
     """(version expr, timestamp expr) of the NetflowCommon a conversion returns — read from the conversion's return
     value with private constructors inlined (`NetflowCommon::new(v, t, flows)`), else from the one aggregate built
@@ -329,7 +382,7 @@ def default_field(prog, an, e):
                         o = s["rv"]["ops"][s["rv"]["fields"].index(e[2])]
                         v = peel(an.opx(db, o))
                         if v[0] == "call" and v[2] is not None and v[2].nsyn == "std::default::Default::default" and any(str(a).startswith("std::option::Option<") for a in (v[2].syn_args or [])):
-                            return ("agg", "std::option::Option", "None", [])
+                            return ("agg", "std::option::Option", "None", [], [])
                         return v
     return e
 
@@ -354,12 +407,27 @@ def run(ctx, env):
             for (blk, i, s) in block_aggs(cb):
                 if s["rv"]["adt"].endswith("NetflowCommonFlowSet"):
                     aggs.append((cb, s))
+        built = None
         if len(aggs) != 1:
-            ctx.ob("R13.1", fn, "single-flow-constructor", False, "found %d NetflowCommonFlowSet constructions below the conversion" % len(aggs))
-            continue
-        cb, s = aggs[0]
-        for nm, o in zip(s["rv"]["fields"], s["rv"]["ops"]):
-            e = default_field(prog, an, peel(an.opx(cb, o)))
+            # no struct literal: the flow may be assembled by builder methods and pushed (`flows.push(F::default().with_..)`)
+            pushes = [(pb, blk, t) for pb in rb.values() for blk, t, c2 in pb.calls()
+                      if c2 is not None and c2.npath == "std::vec::Vec::push" and len(t.get("argtys") or []) == 2 and t["argtys"][1].endswith("NetflowCommonFlowSet")]
+            if len(pushes) == 1:
+                pb, blk, t = pushes[0]
+                fl = struct_fields(an, prog, an.op(pb, t["args"][1]), "NetflowCommonFlowSet")
+                if fl is not None:
+                    built = (pb, {"span": pb.blocks[blk]["tspan"]}, fl)
+            if built is None:
+                ctx.ob("R13.1", fn, "single-flow-constructor", False, "found %d NetflowCommonFlowSet constructions below the conversion" % len(aggs))
+                continue
+        if built is None:
+            cb, s = aggs[0]
+            items = [(nm, peel(an.opx(cb, o))) for nm, o in zip(s["rv"]["fields"], s["rv"]["ops"])]
+        else:
+            cb, s, fl = built
+            items = [(nm, peel(an.expand(v))) for nm, v in fl.items()]
+        for nm, e0 in items:
+            e = default_field(prog, an, e0)
             want = FIXED.get(nm)
             if e[0] == "agg" and e[2] == "Some" and want is not None:
                 # Some(IpAddr::V4(x)) is what Some(x.into()) builds
